@@ -25,6 +25,13 @@ func VerifC11Authorisation() {
 		owner, hasAdmin = o2, false
 	}
 
+	if method == 11 { // a third-level name of ANOTHER owner (o3), for the fourth-level registration below
+		vSign(owner, true)
+		vSign(o3, true)
+		ok, r = vInvoke("nns", "register", "x.a.com", o3, "e@nspcc.io", 1, 2, 1000, 3)
+		vAssume(ok && r.(bool))
+	}
+
 	sO1, sO2, sO3, sA1, sAdm2, sCom := vBool("o1Signs"), vBool("o2Signs"), vBool("o3Signs"), vBool("a1Signs"), vBool("adm2Signs"), vBool("committeeSigns")
 	vSign(o1, sO1)
 	vSign(o2, sO2)
@@ -80,6 +87,11 @@ func VerifC11Authorisation() {
 	case 10:
 		done, _ = vInvoke("nns", "setPrice", 12345)
 		want = sCom
+	case 11: // fourth level: the authority is that of the DIRECTLY enclosing name x.a.com (owner o3, no admin),
+		// not of the zone a.com, plus the new owner's own witness
+		done, res = vInvoke("nns", "register", "y.x.a.com", adm2, "e@nspcc.io", 1, 2, 1000, 3)
+		done = done && res.(bool)
+		want = sO3 && sAdm2
 	}
 	vAssert(done == want, "C11/method-takes-effect-exactly-with-the-documented-authority")
 	vRequire(done, "authorised-call-succeeded")
